@@ -20,6 +20,7 @@ import (
 	"runtime"
 	"strings"
 	"sync"
+	"time"
 
 	"github.com/pinealctx/neptune/syncx/pipe/mux"
 	"github.com/pinealctx/neptune/ulog"
@@ -53,7 +54,12 @@ type Config struct {
 	Init    []bool    `json:"init"` // key i is in the store (not in the cache) when the case starts
 	// Sized: the values the store hands out implement cache.Value with a real Size()
 	// (an LRU then accounts for it); otherwise they are plain values that count 1.
-	Sized  bool    `json:"sized,omitempty"`
+	Sized bool `json:"sized,omitempty"`
+	// Deep: request queue depth of every worker (mux.WithDeep); 0 = the default (8192).
+	Deep int `json:"deep,omitempty"`
+	// Custom: the group is built with mux.NewWorkGrp and a caller-supplied CacheFacade (a
+	// pass-through wrapper around the stock facade) instead of the stock constructors.
+	Custom bool    `json:"custom,omitempty"`
 	InitSz []int64 `json:"init_sz,omitempty"` // Sized: Size() of the initial value of key i (default 1)
 }
 
@@ -230,6 +236,8 @@ func genConfig(t *rapid.T) Config {
 		c.Sized = rapid.IntRange(0, 3).Draw(t, "sized") == 0
 	}
 	c.Workers = rapid.SampledFrom([]int{1, 2, 3, 7}).Draw(t, "workers")
+	c.Deep = rapid.SampledFrom([]int{0, 0, 0, 1, 2, 3}).Draw(t, "deep")
+	c.Custom = rapid.IntRange(0, 3).Draw(t, "custom") == 0
 	n := rapid.IntRange(1, 6).Draw(t, "nkeys")
 	seen := map[string]bool{}
 	for len(c.Keys) < n {
@@ -337,6 +345,13 @@ func GenSeq(t *rapid.T) Case {
 
 func GenGate(t *rapid.T) CaseGate {
 	c := CaseGate{Config: genConfig(t)}
+	// a full queue needs a small depth; with one worker the refusal rule is exact
+	if rapid.IntRange(0, 9).Draw(t, "smalldeep") < 6 {
+		c.Deep = rapid.SampledFrom([]int{1, 1, 2, 3}).Draw(t, "gdeep")
+	}
+	if rapid.IntRange(0, 9).Draw(t, "oneworker") < 4 {
+		c.Workers = 1
+	}
 	c.Gate = genOp(t, c.Config)
 	gk := c.Gate.Key
 	// most operations go to the gated key: that is where acceptance order matters
@@ -354,7 +369,7 @@ func GenGate(t *rapid.T) CaseGate {
 	if rapid.IntRange(0, 7).Draw(t, "gatecancel") == 0 {
 		c.Gate.Cancel, c.Gate.CancelAt = cInside, c.GateAt
 	}
-	for i, n := 0, rapid.IntRange(1, 4).Draw(t, "nqueued"); i < n; i++ {
+	for i, n := 0, rapid.IntRange(1, 6).Draw(t, "nqueued"); i < n; i++ {
 		op := genOp(t, c.Config)
 		nearKey(&op)
 		genCancel(t, &op, true)
@@ -469,6 +484,9 @@ type opRec struct {
 	sweep  bool
 	gateAt int  // > 0: the gateAt-th callback of this operation waits for the harness gate
 	early  bool // gated part: it had returned while the gate was still closed
+	// how many operations accepted before this call may still have been unfinished (queued
+	// or running) anywhere in the group when it was made
+	unfinishedBefore int
 
 	// the caller's context ended (by the case's plan) when cbAtCancel callbacks of the
 	// operation had completed; written under env.mu
@@ -712,6 +730,9 @@ func validConfig(c Config) bool {
 	if c.LRU && (c.Cap < 1 || c.Cap > 1<<20) {
 		return false
 	}
+	if c.Deep < 0 || c.Deep > 1<<20 {
+		return false
+	}
 	seen := map[string]bool{}
 	for _, k := range c.Keys {
 		h, ok := k.build()
@@ -726,6 +747,14 @@ func validConfig(c Config) bool {
 	}
 	return true
 }
+
+// passFacade is a caller-supplied CacheFacade: a pass-through to a stock facade.
+type passFacade struct{ in mux.CacheFacade }
+
+func (p *passFacade) Peek(k interface{}) (interface{}, bool) { return p.in.Peek(k) }
+func (p *passFacade) Get(k interface{}) (interface{}, bool)  { return p.in.Get(k) }
+func (p *passFacade) Set(k interface{}, v interface{})       { p.in.Set(k, v) }
+func (p *passFacade) Delete(k interface{})                   { p.in.Delete(k) }
 
 func validOp(op Op, nkeys int) bool {
 	return op.K >= 0 && op.K < nOpKinds && op.Key >= 0 && op.Key < nkeys
@@ -751,10 +780,22 @@ func newHarness(c Config, faults []Fault) *harness {
 			h.env.install(kid, -1, sz, nil)
 		}
 	}
-	if c.LRU {
-		h.grp = mux.NewWorkGrpWithLRU(c.Cap, mux.WithSize(c.Workers))
-	} else {
-		h.grp = mux.NewWorkGrpWithMapCache(mux.WithSize(c.Workers))
+	opts := []mux.Option{mux.WithSize(c.Workers)}
+	if c.Deep > 0 {
+		opts = append(opts, mux.WithDeep(c.Deep))
+	}
+	switch {
+	case c.Custom:
+		h.grp = mux.NewWorkGrp(func() mux.CacheFacade {
+			if c.LRU {
+				return &passFacade{in: mux.NewFacadeLRU(c.Cap)}
+			}
+			return &passFacade{in: mux.NewFacadeMap()}
+		}, opts...)
+	case c.LRU:
+		h.grp = mux.NewWorkGrpWithLRU(c.Cap, opts...)
+	default:
+		h.grp = mux.NewWorkGrpWithMapCache(opts...)
 	}
 	h.ctx, h.cancel = context.WithCancel(context.Background())
 	h.grp.Start()
@@ -768,12 +809,37 @@ func (h *harness) openGate() {
 	}
 }
 
-// stop ends the worker goroutines and waits for them.
-func (h *harness) stop() {
+// stop ends the worker goroutines and waits for them. A worker that never ends
+// (parked for good inside the group's code, e.g. in the send of a reply nobody
+// will read) can apply nothing any more: that is a verdict, decided by the
+// goroutine-state cut (the timer only says when to look), not a hang.
+func (h *harness) stop(sched *vkit.Sched, res *vkit.Result) {
 	h.openGate()
 	h.cancel()
 	h.grp.Stop()
-	_ = h.grp.WaitStop(context.Background())
+	done := make(chan struct{})
+	go func() {
+		_ = h.grp.WaitStop(context.Background())
+		close(done)
+	}()
+	timer := time.NewTimer(lookAfter)
+	defer timer.Stop()
+	select {
+	case <-done:
+		return
+	case <-timer.C:
+	}
+	parked := sched.MustQuiesce()
+	select {
+	case <-done:
+		return
+	default:
+	}
+	var b strings.Builder
+	for _, g := range parked {
+		fmt.Fprintf(&b, " [goroutine %d %s: %s]", g.ID, g.State, strings.TrimSpace(g.Top))
+	}
+	res.Failf("worker-stuck", "the group was stopped and every caller has returned, yet its worker goroutines never end: every goroutine of the case is parked for good:%s", b.String())
 }
 
 func (h *harness) newRec(id, caller int, op Op) *opRec {
@@ -853,6 +919,7 @@ const (
 	obsUnknown  = iota // the operation does not reveal whether the key was cached
 	obsCached          // it took the cached path
 	obsUncached        // it took the uncached path
+	obsRefused         // it was refused with the queue-full error: never accepted
 )
 
 func (r *opRec) String() string {
@@ -938,6 +1005,12 @@ func checkShape(r *opRec) (obs int, site, msg string) {
 		}
 	}
 	r.complete, r.effOK = false, false
+	if r.v == nil && r.err == mux.ErrQFull {
+		if len(L) != 0 {
+			return bad("refused-call-touched-store", "the caller was told that the queue is full, i.e. the operation was not accepted, yet store callbacks ran for it")
+		}
+		return obsRefused, "", ""
+	}
 	abandonedAtStart := r.cancelled && r.cbAtCancel == 0 && r.ctxResult()
 	if len(L) == 0 {
 		switch r.op.K {
@@ -1242,6 +1315,14 @@ func labelConfig(res *vkit.Result, c Config, h *harness) {
 		res.Class("facade-map")
 	}
 	res.Class(fmt.Sprintf("workers-%d", c.Workers))
+	if c.Deep > 0 {
+		res.Class(fmt.Sprintf("queue-depth-%d", c.Deep))
+	} else {
+		res.Class("queue-depth-default")
+	}
+	if c.Custom {
+		res.Class("group-built-with-NewWorkGrp-and-own-facade")
+	}
 	if c.Sized {
 		res.Class("values-with-size")
 		if c.LRU {
@@ -1351,6 +1432,21 @@ func (j *judge) one(r *opRec) bool {
 		return false
 	}
 	key := r.op.Key
+	if obs == obsRefused {
+		// never accepted: no effect on order or knowledge. Legitimate only if the queue of the key's
+		// worker can have been full: at least `deep` earlier accepted operations still unfinished
+		// somewhere in the group (which keys share a worker is not assumed).
+		deep := h.cfg.Deep
+		if deep == 0 {
+			deep = mux.DefaultDeepSize
+		}
+		if r.unfinishedBefore < deep {
+			res.Failf("refused-without-full-queue", "the call was refused with the queue-full error although at most %d accepted operation(s) were unfinished in the whole group and every worker queue holds %d :: %s", r.unfinishedBefore, deep, r)
+			return false
+		}
+		res.Class("refused-queue-full")
+		return true
+	}
 	if r.op.K == opGet && obs == obsCached {
 		v, _ := asVal(r.v)
 		if r.early {
@@ -1431,30 +1527,50 @@ func (j *judge) one(r *opRec) bool {
 // progress, and the store callbacks check that. If its caller's context ended,
 // the worker may still be busy with it when the caller returns: the history
 // waits (quiescence: every worker idle) before it goes on.
-func (h *harness) doSeq(r *opRec, sched *vkit.Sched) {
+func (h *harness) doSeq(r *opRec, sched *vkit.Sched) (answered bool) {
 	e := h.env
 	e.mu.Lock()
 	e.cur = r.id
 	e.mu.Unlock()
-	h.do(r)
+	// the call runs on its own goroutine, so that a reply that never comes is a verdict, not
+	// a hang: the timer below only says when to look; the verdict is the goroutine-state cut
+	// (every goroutine of the case parked, the caller among them: nothing can ever answer it)
+	done := make(chan struct{})
+	op := sched.Go("seq-op", func() {
+		defer close(done)
+		h.do(r)
+	})
+	timer := time.NewTimer(lookAfter)
+	select {
+	case <-done:
+		timer.Stop()
+	case <-timer.C:
+		sched.MustQuiesce()
+		if !op.Done() {
+			h.cancel() // releases the caller (the result wait observes the context)
+			sched.MustQuiesce()
+			return false
+		}
+		<-done
+	}
 	e.mu.Lock()
 	wait := r.cancelled
 	e.mu.Unlock()
-	if wait && sched != nil {
+	if wait {
 		sched.MustQuiesce()
 	}
 	e.mu.Lock()
 	e.cur = -1
 	e.mu.Unlock()
+	return true
 }
 
-func needsSched(ops []Op) bool {
-	for _, op := range ops {
-		if op.Cancel == cBefore || op.Cancel == cInside {
-			return true
-		}
-	}
-	return false
+// lookAfter: how long a sequential call may take before the controller looks at the
+// goroutine states (not a verdict by itself).
+const lookAfter = 300 * time.Millisecond
+
+func lostReply(res *vkit.Result, r *opRec) *vkit.Result {
+	return res.Failf("lost-reply", "every goroutine of the case is parked and no worker is busy, yet the caller still waits for the result of its operation: %s", r)
 }
 
 func ExecSeq(c Case) *vkit.Result {
@@ -1463,12 +1579,9 @@ func ExecSeq(c Case) *vkit.Result {
 		res.Skip("malformed-config")
 		return res
 	}
-	var sched *vkit.Sched
-	if needsSched(c.Ops) {
-		sched = vkit.NewSched() // before the group: its workers belong to the tracked set
-	}
+	sched := vkit.NewSched() // before the group: its workers belong to the tracked set
 	h := newHarness(c.Config, c.Faults)
-	defer h.stop()
+	defer h.stop(sched, res)
 	e := h.env
 	e.seq = true
 	labelConfig(res, c.Config, h)
@@ -1481,7 +1594,9 @@ func ExecSeq(c Case) *vkit.Result {
 			continue
 		}
 		r := h.newRec(i, 0, op)
-		h.doSeq(r, sched)
+		if !h.doSeq(r, sched) {
+			return lostReply(res, r)
+		}
 		touched[op.Key]++
 		if touched[op.Key] >= 2 {
 			twice = true
@@ -1498,7 +1613,9 @@ func ExecSeq(c Case) *vkit.Result {
 		// the closing probe of every key, with the fault plan switched off
 		r := h.newRec(100000+key, -1, Op{K: opGet, Key: key})
 		r.sweep = true
-		h.doSeq(r, sched)
+		if !h.doSeq(r, sched) {
+			return lostReply(res, r)
+		}
 		if !j.one(r) {
 			return res
 		}
@@ -1526,7 +1643,7 @@ func ExecGate(c CaseGate) *vkit.Result {
 	}
 	sched := vkit.NewSched() // before the group: its workers belong to the tracked set
 	h := newHarness(c.Config, c.Faults)
-	defer h.stop()
+	defer h.stop(sched, res)
 	e := h.env
 	labelConfig(res, c.Config, h)
 	j := &judge{res: res, h: h, m: newModel(h)}
@@ -1540,7 +1657,9 @@ func ExecGate(c CaseGate) *vkit.Result {
 		}
 		op.Cancel, op.CancelAt = cNever, 0
 		r := h.newRec(i, 0, op)
-		h.doSeq(r, sched)
+		if !h.doSeq(r, sched) {
+			return lostReply(res, r)
+		}
 		if !j.one(r) {
 			return res
 		}
@@ -1578,6 +1697,21 @@ func ExecGate(c CaseGate) *vkit.Result {
 			continue
 		}
 		q := &run{r: h.newRec(2000+i, 2+i, op)}
+		// how many requests accepted earlier may sit in a queue right now: callers still parked
+		// (the gated operation itself is running, not queued) and callers whose context ended and
+		// who returned without any of their callbacks having run (at quiescence only the gated
+		// worker is busy, so an operation that has run a callback is not behind the gate)
+		e.mu.Lock()
+		for _, x := range runs {
+			switch {
+			case x == g && gateHeld:
+			case !x.op.Done():
+				q.r.unfinishedBefore++
+			case x.r.cancelled && len(x.r.log) == 0 && x.r.err != mux.ErrQFull:
+				q.r.unfinishedBefore++
+			}
+		}
+		e.mu.Unlock()
 		q.op = sched.Go(fmt.Sprintf("queued-op-%d", i), func() { h.do(q.r) })
 		sched.MustQuiesce()
 		q.parked = !q.op.Done()
@@ -1680,7 +1814,9 @@ func ExecGate(c CaseGate) *vkit.Result {
 	for key := range h.keys {
 		r := h.newRec(100000+key, -1, Op{K: opGet, Key: key})
 		r.sweep = true
-		h.doSeq(r, sched)
+		if !h.doSeq(r, sched) {
+			return lostReply(res, r)
+		}
 		if !j.one(r) {
 			return res
 		}
@@ -1747,7 +1883,7 @@ func ExecConc(c CaseConc) *vkit.Result {
 	}
 	sched := vkit.NewSched() // before the group: its workers belong to the tracked set
 	h := newHarness(c.Config, c.Faults)
-	defer h.stop()
+	defer h.stop(sched, res)
 	e := h.env
 	e.yields = c.Yields
 	labelConfig(res, c.Config, h)
@@ -1815,6 +1951,14 @@ func ExecConc(c CaseConc) *vkit.Result {
 
 	touched := make([]int, len(h.keys))
 	touchedBy := make([]map[int]bool, len(h.keys))
+	lingering := 0 // operations whose caller's context ended: their requests may outlive the call
+	for ci := range c.Callers {
+		for _, r := range recs[ci] {
+			if r.cancelled {
+				lingering++
+			}
+		}
+	}
 	for ci := range c.Callers {
 		want := 0
 		for _, op := range c.Callers[ci] {
@@ -1832,6 +1976,15 @@ func ExecConc(c CaseConc) *vkit.Result {
 			obs, site, msg := checkShape(r)
 			if site != "" {
 				return res.Failf(site, "%s", msg)
+			}
+			if obs == obsRefused {
+				// never accepted (no store call: checked). It can only be right if `deep` other requests can
+				// have been queued: one per other caller, plus those left behind by callers whose context ended
+				if c.Deep == 0 || len(c.Callers)-1+lingering < c.Deep {
+					return res.Failf("refused-without-full-queue", "the call was refused with the queue-full error although at most %d other operation(s) can have been unfinished and every worker queue holds %d :: %s", len(c.Callers)-1+lingering, c.Deep, r)
+				}
+				res.Class("refused-queue-full")
+				continue
 			}
 			if r.op.K == opGet && obs == obsCached {
 				v, _ := asVal(r.v)
